@@ -347,6 +347,22 @@ def gen_B(rng, A, doc_refs):
                     bm["refs"].append({"text": f"[[{u['amod']['name']}]]", "amod": u["amod"], "ent": None,
                                        "qualified": True})
         bmods.append(bm)
+    if doc_refs:
+        # [[type:member]] for components / bound procedures of imported types, where the type name is unambiguous
+        # (one type of that name in all of A, none in B)
+        own_types = {o["name"].lower() for bm in bmods for o in bm["own"] if o["kind"] == "type"}
+        a_types = [e["name"].lower() for am in amods for e in am["kids"] if e["kind"] == "type"]
+        for bm in bmods:
+            for u in bm["uses"]:
+                for e in u["ents"]:
+                    if e["kind"] != "type" or e["name"].lower() in own_types or a_types.count(e["name"].lower()) != 1:
+                        continue
+                    if e["perm"] not in A["display"]:
+                        continue
+                    for c in e["kids"]:
+                        if c["perm"] in A["display"] and rng.random() < 0.7:
+                            bm["refs"].append({"text": f"[[{e['name']}:{c['name']}]]", "amod": u["amod"], "ent": c,
+                                               "qualified": True, "member_of": e})
     if clash_mod:
         # B's own module with the name of one of A's modules, and a module using it
         bmods.append({"name": clash_mod, "uses": [], "types": [], "vars": [], "procs": [], "refs": [],
